@@ -2,7 +2,7 @@
 str/HTML in any order and grouping yields HTML whose rendering equals the operands rendered as siblings."""
 import ocommon
 
-MARK = ["<b>", "&amp;", "&", "</script>", "\n", "<!--", '"', "x", "é", "]]>"]
+MARK = ["<b>", "&amp;", "&", "</script>", "\n", "<!--", '"', "x", "é", "]]>", "\r\n", "\r", "\t", " ", "</", "&#13;", "\u2028", "\x0b"]
 
 
 def run(R, job):
@@ -31,6 +31,10 @@ def run(R, job):
             ("repr child", core.Tag("div", ctx.reprobj(m), core.Tag("span", _add_ws=False), _add_ws=False), "<div>" + m + "<span></span></div>"),
             ("attr", core.Tag("div", title=HTML(m)), '<div title="' + m + '"></div>'),
             ("attr via consolidate_attrs", core.Tag("div", core.consolidate_attrs(title=HTML(m))[0]), '<div title="' + m + '"></div>'),
+            ("class helper on an HTML() class", core.Tag("div", class_=HTML(m)).add_class("x"), '<div class="' + m + ' x"></div>'),
+            ("class helper (prepend) on an HTML() class", core.Tag("div", class_=HTML(m)).add_class("x", prepend=True), '<div class="x ' + m + '"></div>'),
+            ("style helper on an HTML() style", core.Tag("div", style=HTML(m)).add_style("a:b;"), '<div style="' + m + ' a:b;"></div>'),
+            ("HTML() class added to a plain one", core.Tag("div", class_="p").add_class(HTML(m)), '<div class="p ' + m + '"></div>'),
             ("script single", core.Tag("script", m), "<script>" + m + "</script>"),
             ("style single", core.Tag("style", m), "<style>" + m + "</style>"),
             ("script multi", core.Tag("script", m, HTML(m), _add_ws=False), "<script>" + m + m + "</script>"),
@@ -43,6 +47,25 @@ def run(R, job):
                 fails.append({"input": f"{how}: {ctx.describe(t)}", "observed": out, "expected": exp})
             if len(samples) < 3:
                 samples.append({"how": how, "out": out[:120]})
+            # every rendering path: str(), _repr_html_(), render()
+            for path, got in (("str(x)", str(t)), ("x._repr_html_()", t._repr_html_()), ("x.render()['html']", t.render()["html"])):
+                if got != exp:
+                    fails.append({"input": f"{how} via {path}: {ctx.describe(t)}", "observed": got, "expected": exp})
+                    break
+        # ... and the saved file (HTMLDocument(x).save_html / x.save_html): the markup is in the file byte-for-byte
+        import tempfile, os, shutil
+        how, t, exp = r.choice(cases)
+        tmpd = tempfile.mkdtemp(prefix="c04")
+        try:
+            f_ = os.path.join(tmpd, "o.html")
+            (t if r.random() < 0.5 else core.HTMLDocument(t)).save_html(f_)
+            with open(f_, "rb") as fh:
+                saved = fh.read().decode("utf-8")
+            checked += 1
+            if exp not in saved:
+                fails.append({"input": f"{how} via save_html: {ctx.describe(t)}", "observed": saved[:400], "expected": "contains " + exp})
+        finally:
+            shutil.rmtree(tmpd, ignore_errors=True)
         # other rendering paths: the display hook of `with tag:`, HTMLDocument, HTMLTextDocument (dependency head markup)
         import sys
         m2 = m + r.choice(["\\n", "\\d+", "\\1", "\\\\", "\\g<0>", ""])
@@ -82,7 +105,7 @@ def run(R, job):
         class Obj:
             def __init__(self, t): self.t = t
             def __str__(self): return self.t
-        for other in (ValueError(m), Obj(m), 12, 2.5, None, [m]):
+        for other in (ValueError(m), Obj(m), 12, 2.5, None, [m], 0, 0.0, False, True, -1, Obj("")):
             checked += 2
             a_ = HTML("<i>") + other
             b_ = other + HTML("<i>") if not isinstance(other, list) else None
